@@ -300,18 +300,27 @@ def run_narrow(desc, ctx, res):
         wk = rng.sample(list(rowsN), max(1, len(rowsN) // 3))
         G.write_fa(ctx.path('weed.fa'), [(a[:h] + 'A' + a[h:]) if rng.random() < 0.5 or not rcmode else M.rc(a[:h] + 'A' + a[h:]) for a in wk])
         rev = rng.random() < 0.5
-        p = ctx.sh(b, 'weed', ctx.path('narrow.skf'), ctx.path('weed.fa'), '--min-freq', '0', '-o', ctx.path('weeded.skf'), *(['--reverse'] if rev else []))
+        # a random subset of the filter flags rides along (each is a separate positional bool in the dispatch code)
+        wf = {'fam': rng.random() < 0.3, 'mask': rng.random() < 0.3, 'nogap': rng.random() < 0.3,
+              'filt': rng.choice(['no-filter', 'no-filter', 'no-const', 'no-ambig', 'no-ambig-or-const'])}
+        wflags = (['--filter-ambig-as-missing'] if wf['fam'] else []) + (['--ambig-mask'] if wf['mask'] else []) + \
+            (['--no-gap-only-sites'] if wf['nogap'] else []) + ['--filter', wf['filt']]
+        p = ctx.sh(b, 'weed', ctx.path('narrow.skf'), ctx.path('weed.fa'), '--min-freq', '0', '-o', ctx.path('weeded.skf'),
+                   *(['--reverse'] if rev else []), *wflags)
         if not chk_overflow(p):
             res.evals += judged
             ok = p.returncode == 0
             if ok:
                 try:
                     hw, Tw = G.nk(ctx, ctx.path('weeded.skf'), binary=b)
-                    ok = Tw == M.t_weed(rowsN, set(wk), rev) and hw.get('k_bits') == '128'
+                    expw = M.t_weed(rowsN, set(wk), rev)
+                    if wf['filt'] != 'no-filter' or wf['mask'] or wf['nogap']:
+                        expw = M.t_filter(expw, wf['filt'], 0, wf['fam'], wf['mask'], wf['nogap'])
+                    ok = Tw == expw and hw.get('k_bits') == '128'
                 except (G.NkFailed, ValueError):
                     ok = False
             if not ok:
-                viol('weed', 'weeded file differs from the model (reverse=%s): %s' % (rev, p.stderr.strip()[-120:]))
+                viol('weed', 'weeded file differs from the model (reverse=%s flags=%s): %s' % (rev, wflags, p.stderr.strip()[-120:]))
             elif judged:
                 res.count('narrow:weed')
         # delete
